@@ -1,6 +1,6 @@
 (* C11: Sqrt correctly rounded (half-even) and Cbrt within one unit / exact on perfect cubes, decided by
    exact integer arithmetic on the implementation's results.  No floating point, no tolerance. *)
-From Apd Require Import Generated.Consts Model.Base Model.NumDigits Model.Decimal Spec.SpecZ Oracle.Judge.
+From Apd Require Import Generated.Consts Model.Base Model.NumDigits Model.Decimal Model.Context Model.Roots Spec.SpecZ Oracle.Judge.
 Open Scope Z_scope.
 
 Definition O_SQRT := 100.       (* not the root rounded half-even to Precision digits *)
@@ -99,4 +99,19 @@ Definition oracle_cbrt (c : ctx) (x : dec) (o : obs) : list Z :=
               flag (value_eqb (coeff d) (exp d) k ((exp x - ex3) / 3) && negb (Inexact (o_cond o))) O_CBRT_EXACT
             else []
           else [])
+  end.
+
+(* correspondence: the model of Sqrt / Cbrt (Model/Roots.v: no floating point is involved, so the model is
+   compared result for result) against the implementation *)
+Definition corr_root (is_cbrt : bool) (c : ctx) (x : dec) (o : obs) : list Z :=
+  match (if is_cbrt then ctx_cbrt go_est c x else ctx_sqrt go_est c x) with
+  | Ok r =>
+      flag (err_eqb (rerr r) (o_err o)) K_ERR
+      ++ (if system_err (rerr r) then []
+          else flag (cond_eqb (rcond r) (o_cond o)) K_COND
+               ++ match rdec r with
+                  | Some d => flag (if is_finite d then dec_eqb d (o_dec o) else same_value d (o_dec o)) K_DEST_REPR
+                  | None => []
+                  end)
+  | _ => [K_MODEL_PANIC]
   end.
